@@ -485,6 +485,13 @@ fn child_names(args: &Args, out: &mut Out) {
         while ready.load(Ordering::SeqCst) < THREADS {
             std::thread::yield_now();
         }
+        // CPU time each thread has used up to the start signal (spin-waiting for the others)
+        let cpu_of = |t: usize| -> Option<u64> {
+            let path = procs.lock().unwrap()[t].clone();
+            path.and_then(|p| std::fs::read_to_string(p.join("schedstat")).ok())
+                .and_then(|s| s.split_whitespace().next().and_then(|x| x.parse::<u64>().ok()))
+        };
+        let base_cpu: Vec<u64> = (0..THREADS).map(|t| if cfg!(miri) { 0 } else { cpu_of(t).unwrap_or(0) }).collect();
         go.store(true, Ordering::Release);
         let t0 = Instant::now();
         let mut spins = 0u64;
@@ -498,10 +505,7 @@ fn child_names(args: &Args, out: &mut Out) {
                 if hs[t].is_finished() {
                     continue;
                 }
-                let path = procs.lock().unwrap()[t].clone();
-                let cpu_ns = path
-                    .and_then(|p| std::fs::read_to_string(p.join("schedstat")).ok())
-                    .and_then(|s| s.split_whitespace().next().and_then(|x| x.parse::<u64>().ok()));
+                let cpu_ns = cpu_of(t).map(|ns| ns.saturating_sub(base_cpu[t]));
                 if cpu_ns.map(|ns| ns > STUCK_CPU_S * 1_000_000_000).unwrap_or(false) {
                     out.violation(
                         "an emission never returned: a thread formatting one event with thread names on consumed its CPU-time bound without finishing",
